@@ -110,6 +110,10 @@ def run_sim_case(spec, prop, extra_listeners=(), post=None, **run_kwargs):
         run_kwargs["device"] = device
     # fixed-step workloads get their dt from the mesh at run time; monitors must see the resolved drive
     spec = sim.resolve_auto_dt(spec, run_kwargs["device"])
+    if spec.get("history"):
+        refused = apply_history(spec, run_kwargs["device"])
+        if refused:
+            return {"violations": [], "counters": {"refused_mesh": 1}, "classes": ["refused"], "nontrivial": False, "refused_reason": refused}
     mons = {name: MONITORS[name](spec) for name in ["sanitizer"] + list(spec.get("monitors", []))}
     listeners = list(mons.values()) + list(extra_listeners)
     rr = sim.run_sim(spec, listeners, **run_kwargs)
@@ -141,6 +145,40 @@ def run_sim_case(spec, prop, extra_listeners=(), post=None, **run_kwargs):
     return out
 
 
+def apply_history(spec, device):
+    """Things that happened to the Device object BEFORE the monitored run (the monitors only watch the run that follows):
+    'used' = solved once with other options (terminal pinning toggled, zero field, screening toggled off);
+    'used_moved' = the same, then moved in place and back (coordinates differ from the originals by rounding only)."""
+    import copy
+
+    pre = copy.deepcopy(spec)
+    pre.pop("history", None)
+    pre.pop("solve_twice", None)
+    o = pre["options"]
+    o["terminal_psi"] = "none" if o.get("terminal_psi", 0.0) != "none" else 0.0
+    o["include_screening"] = False
+    o["solve_time"] = 0.3 * o.get("solve_time", 1.0)
+    if "auto_dt" in o:
+        o["auto_dt"] = dict(o["auto_dt"], steps=max(5, o["auto_dt"]["steps"] // 3))
+    o["skip_time"] = 0.0
+    o["output"] = "temp"
+    pre["drive"] = {"A": {"kind": "zero"}}
+    if spec["drive"].get("currents", {}).get("kind") == "const":
+        pre["drive"]["currents"] = spec["drive"]["currents"]
+    r0 = sim.run_sim(pre, [], device=device)
+    if r0.refused:
+        return str(r0.refused)
+    try:
+        r0.cleanup()
+    except Exception:
+        pass
+    if spec["history"] == "used_moved":
+        size = float(np.ptp(np.asarray(device.film.points), axis=0).max())
+        device.translate(0.31 * size, -0.17 * size, inplace=True)
+        device.translate(-0.31 * size, 0.17 * size, inplace=True)
+    return None
+
+
 def classes_of(spec):
     d = spec.get("drive", {})
     o = spec["options"]
@@ -156,7 +194,7 @@ def classes_of(spec):
         "units=" + dev.get("length_units", "um") + "/" + o.get("field_units", "mT") + "/" + o.get("current_units", "uA"),
         "terminal_psi=" + str(o.get("terminal_psi", 0.0)),
         "gamma=" + str(dev["layer"].get("gamma")),
-    ]
+    ] + (["history=" + spec["history"]] if spec.get("history") else [])
 
 
 # ----------------------------------------------------------------------------
@@ -206,4 +244,6 @@ def c10_insitu_cases(tier, rng):
         drive = {"A": A, "currents": current_spec(rng, dev, o, "const" if nt and rng.random() < 0.5 else "none")}
         cases.append({"layer": "L2", "device": dev, "options": o, "drive": drive, "monitors": ["fresh"], "kind": kind,
                       "cost": 30 if scr else 8})
+        if len(cases) % 3 == 0:
+            cases[-1]["history"] = ["used", "used_moved"][(len(cases) // 3) % 2]  # Device object solved before with other options
     return cases
